@@ -337,6 +337,7 @@ func init() {
 		ID:       "C01",
 		Patterns: []string{"./js"},
 		Custom:   []string{"partial", "jstables"},
+		Units:    []string{modPath + "/js.isCanonicalIntegerString"},
 		Partial: []string{modPath + "/js.isBooleanExpr", modPath + "/js.endsInIf", modPath + "/js.isFalsy", modPath + "/js.mergeBinaryExpr",
 			modPath + "/js.(*jsMinifier).minifyParams", modPath + "/js.(*jsMinifier).minifyExpr",
 			modPath + "/js.isUndefined", modPath + "/js.isUndefinedOrNull", modPath + "/js.toNullishExpr",
